@@ -219,7 +219,8 @@ def run_kaldi(cfg):
             continue
         m = ctx.model()
         w = dict(kind='kaldi', nutt=nutt, npre=npre, npost=npost, nchan=nchan, what=res[0], detail=str(res[1:])[:300],
-                 channel=m.eval(z3.Int('channel'), True).as_long())
+                 channel=m.eval(z3.Int('channel'), True).as_long(), seed=m.eval(z3.Int('seed'), True).as_long(),
+                 seed_given=z3.is_true(m.eval(z3.Bool('seed_given'), True)))
         for u in range(nutt):
             w['mismatch%d' % u] = not z3.is_true(m.eval(z3.Real('sf%d' % u) == z3.Real('rate'), True))
             w['short%d' % u] = z3.is_true(m.eval(z3.Real('dur%d' % u) < z3.Real('mind'), True))
@@ -232,6 +233,7 @@ def run_kaldi(cfg):
 # ------------------------------------------------------------------ signals-to-torch-feat-dir
 
 class Env:
+    read_args = []
     """stub environment of the torch tool; records saves, manifest prints, seeds"""
 
     def __init__(s, nutt, npre, npost, nchan, comp):
@@ -291,6 +293,7 @@ def build_torch_ns(env, ns=None):
     def read_signal(path, dtype=None, force_as=None, key=None):
         u = int(path.split('path')[1])
         env.reads.append((path, key))
+        env.read_args.append((path, dtype, force_as, key))
         if nchan == 1 and env.mono_1d:
             return Vec(F64(z3.Const('sig%d' % u, A)), 1)
         return Vec(F64(z3.Const('sig%d' % u, A)), 2, nchan)
@@ -393,7 +396,8 @@ def run_torch_tool(ns, env, options, hooks=None):
         class random:
             @staticmethod
             def randint(n):
-                return SInt(z3.Int('random_seed'))
+                env.random_draws = getattr(env, 'random_draws', 0) + 1
+                return SInt(z3.Int('random_seed_draw%d' % env.random_draws))   # a fresh value per draw / per run
 
         @staticmethod
         def iinfo(t):
@@ -449,8 +453,10 @@ def run_torch(cfg):
         env.mono_1d = decide(z3.Bool('mono_is_1d'))
         has_seed = decide(z3.Bool('seed_given'))
         runs = []
+        env.random_draws = 0
         for run_id in (1, 2):
             env.saved, env.printed, env.seeds, env.reads, env.files = [], [], [], [], {}
+            env.read_args = []
             env.rng.state = z3.Const('unseeded_run%d' % run_id, cl.RNGS)
             opts = make_options(env, SInt(sd) if has_seed else None, SInt(ch), None)
             try:
@@ -461,10 +467,14 @@ def run_torch(cfg):
                 symex.guard(e)
                 return ('exception', '%s: %s' % (type(e).__name__, e))
             runs.append((rc, list(env.saved)))
-        seed_z = sd if has_seed else z3.Int('random_seed')
+        seed_z = sd if has_seed else z3.Int('random_seed_draw1')
         rc, saved = runs[0]
         if rc != 0:
             return ('exit code', rc)
+        # every signal is read through read_signal(path, dtype=float64, force_as=<--force-as>, key=<utterance id>)
+        want_reads = [('path%d' % u, 'f64', None, 'utt%d' % u) for u in range(env.nutt)]
+        if env.read_args != want_reads:
+            return ('read_signal arguments', str(env.read_args)[:200])
         if [p for p, _ in saved] != ['out/utt%d.pt' % u for u in range(env.nutt)]:
             return ('files', [p for p, _ in saved])
         for u, (p, t) in enumerate(saved):
@@ -495,7 +505,7 @@ def run_torch(cfg):
                 dis += 1
                 continue
         viol.append(dict(kind='torch', nutt=env.nutt, npre=env.npre, npost=env.npost, nchan=env.nchan, comp=env.comp, what=res[0], detail=str(res[1:])[:300],
-                         channel=chv, mono_1d=mono1d, seed_given=z3.is_true(m.eval(z3.Bool('seed_given'), True)),
+                         channel=chv, mono_1d=mono1d, seed_given=z3.is_true(m.eval(z3.Bool('seed_given'), True)), seed=m.eval(z3.Int('seed'), True).as_long(),
                          **{'class': 'torch/%s' % res[0]}))
     return dict(obligations=ob, discharged=dis, violations=viol, samples=[{'config': cfg['name'], 'pipeline_term': str(spec_term(env, 0, z3.Int('seed'), z3.Int('channel'), False))[:300]}], twin=dis > 0)
 
@@ -533,6 +543,10 @@ def replay(w):
     work = tempfile.mkdtemp(prefix='c09-', dir='/verif/.work' if os.path.isdir('/verif/.work') else None)
     try:
         conf, pre, post = _real_setup(work)
+        randomised = 'deterministic' in w.get('what', '') or (w.get('seed_given') and w.get('npre', 0) > 0)
+        if randomised:
+            pre = [{'name': 'dither', 'coeff': 1.0}]
+        seed = int(w.get('seed', 3)) if w.get('seed_given', True) else 3
         pre = pre[: max(0, min(1, w.get('npre', 1)))]
         post = post[: max(0, min(1, w.get('npost', 1)))]
         rng = np.random.RandomState(2)
@@ -565,7 +579,7 @@ def replay(w):
                     scp.write('%s %s\n' % (k, wp))
                     sigs[k] = v.astype('<i2').astype(np.float64)
             feats = os.path.join(work, 'feats.ark')
-            args = ['scp:' + wavs, 'ark:' + feats, json.dumps(conf), '--preprocess', json.dumps(pre), '--postprocess', json.dumps(post)]
+            args = ['scp:' + wavs, 'ark:' + feats, json.dumps(conf), '--preprocess', json.dumps(pre), '--postprocess', json.dumps(post), '--seed', str(seed)]
             if chan != -1 or nchan > 1:
                 args += ['--channel', str(max(chan, 0))]
             with warnings.catch_warnings():
@@ -578,6 +592,21 @@ def replay(w):
             if os.path.exists(feats):
                 with kopen('ark:' + feats, 'bm') as f:
                     got = {k_: np.array(v_) for k_, v_ in f.items()}
+            if randomised:
+                # same command twice with the same --seed must store identical features
+                feats2 = os.path.join(work, 'feats2.ark')
+                args2 = list(args)
+                args2[1] = 'ark:' + feats2
+                with warnings.catch_warnings():
+                    warnings.simplefilter('ignore')
+                    command_line.compute_feats_from_kaldi_tables(args2)
+                with kopen('ark:' + feats2, 'bm') as f:
+                    got2 = {k_: np.array(v_) for k_, v_ in f.items()}
+                for k in got:
+                    if k not in got2 or got[k].shape != got2[k].shape or not np.array_equal(got[k], got2[k]):
+                        return {'reproduced': True, 'detail': 'two runs with --seed %d and dither store different features for %s (max diff %.3g)'
+                                % (seed, k, float(np.abs(got[k] - got2[k]).max()) if k in got2 and got[k].shape == got2[k].shape else float('nan'))}
+                return {'reproduced': False, 'detail': 'two runs with --seed %d are identical' % seed}
             for k, v in sigs.items():
                 if w.get('mismatch' + k[3:], False):
                     if k in got:
@@ -592,19 +621,38 @@ def replay(w):
             return {'reproduced': False, 'detail': 'kaldi tool output equals the library pipeline'}
         import torch
         mp = os.path.join(work, 'map')
+        archive = w.get('what') == 'read_signal arguments'
         with open(mp, 'w') as f:
-            for k, v in sigs.items():
-                p = os.path.join(work, k + '.npy')
-                np.save(p, v if nchan > 1 or not w.get('mono_1d', True) else v[0])
-                f.write('%s %s\n' % (k, p))
+            if archive:
+                # all utterances in one .npz archive, keyed by utterance id (the tool passes key=utt_id)
+                sigs = {'utt%d' % u: (rng.randn(nchan, 900 + 150 * u) * 1000).astype(np.float64) for u in range(3)}
+                p = os.path.join(work, 'all.npz')
+                np.savez(p, **{k: (v if nchan > 1 or not w.get('mono_1d', True) else v[0]) for k, v in sigs.items()})
+                for k in sigs:
+                    f.write('%s %s\n' % (k, p))
+            else:
+                for k, v in sigs.items():
+                    p = os.path.join(work, k + '.npy')
+                    np.save(p, v if nchan > 1 or not w.get('mono_1d', True) else v[0])
+                    f.write('%s %s\n' % (k, p))
         out = os.path.join(work, 'out')
-        args = [mp] + ([json.dumps(conf)] if w.get('comp', True) else []) + [out, '--preprocess', json.dumps(pre), '--postprocess', json.dumps(post), '--seed', '3']
+        args = [mp] + ([json.dumps(conf)] if w.get('comp', True) else []) + [out, '--preprocess', json.dumps(pre), '--postprocess', json.dumps(post), '--seed', str(seed)]
         if chan != -1:
             args += ['--channel', str(chan)]
         try:
             rc = command_line.signals_to_torch_feat_dir(args)
         except Exception as e:
             return {'reproduced': True, 'detail': 'signals-to-torch-feat-dir raised %s: %s' % (type(e).__name__, e)}
+        if randomised:
+            out2 = os.path.join(work, 'out2')
+            args2 = list(args)
+            args2[args2.index(out)] = out2
+            command_line.signals_to_torch_feat_dir(args2)
+            for k in sigs:
+                a, b = torch.load(os.path.join(out, k + '.pt')), torch.load(os.path.join(out2, k + '.pt'))
+                if a.shape != b.shape or not torch.equal(a, b):
+                    return {'reproduced': True, 'detail': 'two runs with --seed %d and dither store different features for %s' % (seed, k)}
+            return {'reproduced': False, 'detail': 'two runs with --seed %d identical' % seed}
         for k, v in sigs.items():
             fp = os.path.join(out, k + '.pt')
             if not os.path.exists(fp):
